@@ -555,8 +555,8 @@ for _pid, _spec in PROPS.items():
 
 _ADD = {
     "C01": ([], " ENCKEEP (part of LINCODEC): at every successful return of an encoder that was given output space and input (or asked to terminate) the finished part `done` and the encoded amount `done + scratch` are not below their values at entry, termination gives done' >= done + scratch, and the open block stays below a full code block (assumed at entry, shown at exit); exits behind the block loop where the relation is not shown are listed as not decided."),
-    "C04": ([{"run": rules_cow.run_stalebuf, "floor": 25, "scope": "anchor-dirs"}, {"run": rules_cow.run_cxxcow, "floor": 2, "ctx": {"cxx_files": ["mpt++/array.cpp"]}}, {"run": rules_cow.run_detachfail, "floor": 1}],
-            " CXXCOW: typestate with trace partitioning in mpt++/array.cpp: a content object obtained from a handle is changed in place (set_length, append, insert, skip, trim) only where its shared() test answered false on that path or it was created here. DETACHFAIL: a bool function whose `c->detach(size)` did not deliver a private copy does not answer true. STALEBUF: forward may-analysis per function: a local computed from `A->_buf` is not read, dereferenced or returned after a call that may replace A's buffer (functions that store to their array parameter's `_buf`, transitively) unless it was assigned again."),
+    "C04": ([{"run": rules_cow.run_stalebuf, "floor": 40, "scope": "anchor-dirs"}, {"run": rules_cow.run_cxxcow, "floor": 2, "ctx": {"cxx_files": ["mpt++/array.cpp"]}}, {"run": rules_cow.run_detachfail, "floor": 1}],
+            " CXXCOW: typestate with trace partitioning in mpt++/array.cpp: a content object obtained from a handle is changed in place (set_length, append, insert, skip, trim) only where its shared() test answered false on that path or it was created here. DETACHFAIL: a bool function whose `c->detach(size)` did not deliver a private copy does not answer true. STALEBUF: interval analysis with trace partitioning on (derived locals, stale locals) per function: a local computed from `A->_buf` (or that `A._buf` was computed from) is not read, dereferenced or returned after a call that may replace A's buffer (functions that store to their array parameter's `_buf`, transitively) unless it was assigned again."),
     "C05": ([{"run": rules_traits.run_initwrites, "floor": 12}, {"run": rules_traits.run_finibound, "floor": 5}, {"run": rules_traits.run_finifirst, "floor": 5}, {"run": rules_ident.run_identoverlay, "floor": 15}],
             " FINIFIRST: in a function with a finalizer loop the used length is lowered only behind that loop (or under a growth guard / a test that there is no finalizer). IDENTOVERLAY (see C16) for the identifier element type: its finalizer reads `_base` only under `_len > _max`. INITWRITES: every `init` operation named by a type_traits table has written through its element pointer on each path to a return that can be non-negative. FINIBOUND: no store to `B->_used` reaches the read of `B->_used` that bounds a finalizer loop over B."),
     "C06": ([{"run": rules_table.run_sparsezero, "floor": 3, "use_anchor_files": True}],
@@ -582,6 +582,10 @@ _ADD = {
 }
 # option values are kept by the generic-info metatype: its size computation belongs to "values of any length"
 PROPS["C09"].setdefault("extra_scope_files", []).append("mptcore/misc/geninfo.c")
+for _pid in ("C08", "C10"):
+    PROPS[_pid]["rules"].append({"run": rules_cow.run_stalebuf, "floor": 40, "scope": "anchor-dirs"})
+    PROPS[_pid]["explanation"] += " STALEBUF (see C04) over the path functions: a byte pointer computed from an array-backed path buffer is not used after a call that may replace that buffer."
+PROPS["C08"].setdefault("extra_scope_files", []).append("mptcore/config/path_add.c")
 for _pid, (_rules, _text) in _ADD.items():
     PROPS[_pid]["rules"] += _rules
     PROPS[_pid]["explanation"] += _text
